@@ -386,6 +386,8 @@ pub enum Mode {
 pub enum EvOp {
     Nop,
     World(Op),
+    /// Two world operations before the same frame.
+    WorldPair(Op, Op),
     /// Server emits an event of a kind with a send mode, optionally referencing an entity slot.
     EmitS(SK, Mode, Option<u8>),
     /// Several server emissions before one and the same frame (see `bursts`).
@@ -451,6 +453,7 @@ impl EvOp {
         match self {
             EvOp::Nop => "nop".into(),
             EvOp::World(op) => op.show(),
+            EvOp::WorldPair(a, b) => format!("{} + {}", a.show(), b.show()),
             EvOp::EmitS(k, m, r) => format!(
                 "server emits {k:?} {}{}",
                 match m {
@@ -657,6 +660,7 @@ impl EvCell {
         match op {
             EvOp::Nop => true,
             EvOp::World(op) => x.sim.enabled(op),
+            EvOp::WorldPair(a, b) => x.sim.enabled(a) && x.sim.enabled(b),
             EvOp::EmitS(_, mode, r) => {
                 let target_ok = match mode {
                     Mode::Broadcast => true,
@@ -724,6 +728,10 @@ impl EvCell {
         match op {
             EvOp::Nop => {}
             EvOp::World(op) => x.sim.apply_op(op),
+            EvOp::WorldPair(a, b) => {
+                x.sim.apply_op(a);
+                x.sim.apply_op(b);
+            }
             EvOp::Connect(c) => x.sim.connect(c as usize),
             EvOp::ConnectSlowly(c) => x.sim.connect_slowly(c as usize, 4),
             EvOp::ConnectSlowlyEmitting(c) => {
@@ -1325,9 +1333,61 @@ impl EvCell {
                         msg_of.insert(bits, w.id);
                     }
                 }
+                // ... and entities that are not related do not share a message that is larger
+                // than the client's maximum
+                let max = x.sim.clients[c].max_size;
+                let related = |a: u64, b: u64| -> bool {
+                    let w = x.sim.server.world();
+                    let points = |s: u64, t: u64| {
+                        let e = Entity::from_bits(s);
+                        w.get_entity(e).is_ok_and(|r| {
+                            r.get::<ChildOf>().is_some_and(|c| c.parent().to_bits() == t) || r.get::<OwnedBy>().is_some_and(|o| o.0.to_bits() == t)
+                        })
+                    };
+                    points(a, b) || points(b, a)
+                };
+                for w in x.sim.wire.iter().rev().take_while(|w| w.server_frame == frame).filter(|w| w.client == c && w.channel == 1 && w.bytes.len() > max) {
+                    let Some((_, recs)) = crate::props::c10::entity_records(self.cfg.track, &w.bytes) else { continue };
+                    let ents: Vec<u64> = recs.iter().map(|r| r.0).collect();
+                    // connected components under the relations that exist right now
+                    let mut comp: Vec<usize> = (0..ents.len()).collect();
+                    for i in 0..ents.len() {
+                        for j in 0..i {
+                            if related(ents[i], ents[j]) {
+                                let (a, b) = (comp[i], comp[j]);
+                                for k in comp.iter_mut() {
+                                    if *k == a {
+                                        *k = b;
+                                    }
+                                }
+                            }
+                        }
+                    }
+                    let groups: BTreeSet<usize> = comp.iter().copied().collect();
+                    // (the size clause only speaks about ticks in which every group fits by itself)
+                    let header = w.bytes.len() - recs.iter().map(|r| r.1).sum::<usize>();
+                    let every_group_fits = groups.iter().all(|g| {
+                        header + recs.iter().zip(&comp).filter(|(_, c)| *c == g).map(|(r, _)| r.1).sum::<usize>() <= max
+                    });
+                    if groups.len() > 1 && every_group_fits {
+                        return Err(self
+                            .v(
+                                "message-too-large",
+                                format!(
+                                    "tick {}: a mutate message of {} bytes (maximum {max}) for c{c} carries {} entities that form {} unrelated groups",
+                                    x.sim.last_tick,
+                                    w.bytes.len(),
+                                    ents.len(),
+                                    groups.len()
+                                ),
+                            )
+                            .feat("kind:size"));
+                    }
+                }
                 for slot in 0..x.sim.ents.len() as u8 {
                     let Some(e) = x.sim.alive(slot) else { continue };
-                    let Some(p) = x.sim.server.world().get::<ChildOf>(e).map(|c| c.parent()) else { continue };
+                    let rel = x.sim.server.world().get::<ChildOf>(e).map(|c| c.parent()).or_else(|| x.sim.server.world().get::<OwnedBy>(e).map(|o| o.0));
+                    let Some(p) = rel else { continue };
                     if let (Some(a), Some(b)) = (msg_of.get(&e.to_bits()), msg_of.get(&p.to_bits())) {
                         if a != b {
                             return Err(self
